@@ -1108,10 +1108,13 @@ where
                     ..
                 }) = self.ports.get_mut(&port)
                 {
-                    if !remote_receiver_closed.load(Ordering::Relaxed) {
-                        // Disable credits provider.
-                        sender_credit_provider.close(false);
+                    // Disable credits provider.
+                    // This must also be done if the remote receiver has been closed gracefully
+                    // before, since senders overriding the graceful close may be waiting for
+                    // credits, which will never be returned once the remote receiver is dropped.
+                    sender_credit_provider.close(false);
 
+                    if !remote_receiver_closed.load(Ordering::Relaxed) {
                         // Send hangup notifications.
                         remote_receiver_closed.store(true, Ordering::Relaxed);
                         let notifies = remote_receiver_closed_notify.lock().unwrap().take().unwrap();
